@@ -374,3 +374,214 @@ func TestRegress_C34Fixed(t *testing.T) {
 		c34Run(t, "TestRegress_C34Fixed", c)
 	}
 }
+
+// ---------------------------------------------------------------- several light blocks at one height
+
+// Competing blocks of one height (fork blocks relayed by different peers, or the same block relayed twice) are pending
+// together or one after the other, each with its own missing transactions.  The property is stated per light block, so
+// the oracle is evaluated per block: completed => its identical block is handed over exactly once; timed out (the
+// height is above the local height throughout) => exactly one blockReqMsgID request for that height goes to THAT
+// block's sender.  The real pendBlockLoop runs for the whole case (state it keeps between ticks is part of what is
+// checked); the harness only waits (watchdog => inconclusive) until the pending list has the expected length, then
+// stops the loop and reads the outgoing channel up to a marker.
+type c34Sibling struct {
+	Block  c34Case `json:"block"`  // layout / availability of this block (Height, Arrive, Drive, Idle are ignored)
+	Fate   string  `json:"fate"`   // complete | arrive | timeout
+	Sender int     `json:"sender"` // index of the relaying peer (distinct per sibling)
+	DupOf  int     `json:"dupOf"`  // >= 0: the same block as sibling DupOf, relayed by another peer
+}
+
+type c34MultiCase struct {
+	Height     int64        `json:"height"`
+	Sequential bool         `json:"sequential"` // each sibling is resolved before the next arrives
+	Siblings   []c34Sibling `json:"siblings"`
+}
+
+func c34GenMulti(t *rapid.T) c34MultiCase {
+	c := c34MultiCase{Height: rapid.Int64Range(2, 1000).Draw(t, "height"), Sequential: rapid.Bool().Draw(t, "sequential")}
+	k := rapid.IntRange(2, 3).Draw(t, "siblings")
+	senders := rapid.Permutation([]int{0, 1, 2}).Draw(t, "senders")
+	for i := 0; i < k; i++ {
+		s := c34Sibling{Sender: senders[i], DupOf: -1, Fate: rapid.SampledFrom([]string{"complete", "arrive", "timeout", "timeout", "timeout"}).Draw(t, "fate")}
+		if i > 0 && rapid.IntRange(0, 4).Draw(t, "dup") == 0 {
+			s.DupOf = rapid.IntRange(0, i-1).Draw(t, "dupOf")
+			for c.Siblings[s.DupOf].DupOf >= 0 {
+				s.DupOf = c.Siblings[s.DupOf].DupOf
+			}
+		} else {
+			b := c34Gen(t)
+			b.N, b.Groups, b.Present = minInt(b.N, 8), nil, nil
+			for j := 1; j < b.N; {
+				if b.N-j >= 2 && rapid.IntRange(0, 3).Draw(t, "group?") == 0 {
+					sz := rapid.IntRange(2, minInt(3, b.N-j)).Draw(t, "gsize")
+					b.Groups = append(b.Groups, [2]int{j, sz})
+					j += sz
+				} else {
+					j++
+				}
+			}
+			units := len(c34GroupUnits(b))
+			hole := rapid.IntRange(0, units-1).Draw(t, "hole")
+			for u := 0; u < units; u++ {
+				b.Present = append(b.Present, s.Fate == "complete" || (u != hole && rapid.Bool().Draw(t, "present")))
+			}
+			b.Height, b.Salt = c.Height, b.Salt*4+i
+			s.Block = b
+		}
+		c.Siblings = append(c.Siblings, s)
+	}
+	return c
+}
+
+func c34RunMulti(t lib.TB, test string, c c34MultiCase) {
+	f := vfGet()
+	f.reset()
+	v := f.newProto(3600 * 1000)
+	defer v.close()
+	fail := func(format string, a ...interface{}) { lib.Violation(t, "C34", test, c, format, a...) }
+	atomic.StoreInt64(&v.currHeight, c.Height-1)
+	pendLen := func() int {
+		v.ltB.pdBlockLock.Lock()
+		defer v.ltB.pdBlockLock.Unlock()
+		return v.ltB.pendBlockList.Len()
+	}
+	waitPend := func(n int, what string) {
+		for i := 0; pendLen() != n; i++ {
+			if i > 6000 {
+				lib.Inconclusive("pendBlockLoop: %s (pending %d, expected %d) not reached within 60s", what, pendLen(), n)
+			}
+			time.Sleep(10 * time.Millisecond)
+		}
+	}
+	done := make(chan struct{})
+	go func() { v.ltB.pendBlockLoop(); close(done) }()
+
+	blocks := make([]*types.Block, len(c.Siblings))
+	units := make([][]c34Unit, len(c.Siblings))
+	wantPost := map[string]*types.Block{} // block hash -> block that must be handed over exactly once
+	wantReq := map[string]int{}           // peer topic -> expected number of requests for c.Height
+	expectPending := 0
+	for i, s := range c.Siblings {
+		if s.DupOf >= 0 {
+			// the same block again from another peer: the duplicate filter drops it; nothing more is expected for it
+			lt := v.buildLtBlock(blocks[s.DupOf])
+			v.psub.handleSubMsg(vfOneMsg(psLtBlockTopic, v.psub.encodeMsg(lt, new([]byte)), f.peers[s.Sender], f.peers[s.Sender]))
+			lib.Class("sibling_duplicate")
+			continue
+		}
+		blocks[i], units[i] = c34Build(f, s.Block)
+		var missing []int
+		for u, un := range units[i] {
+			if s.Block.Present[u] {
+				f.poolAdd(un.poolTx)
+			} else {
+				missing = append(missing, u)
+			}
+		}
+		lt := v.buildLtBlock(blocks[i])
+		v.psub.handleSubMsg(vfOneMsg(psLtBlockTopic, v.psub.encodeMsg(lt, new([]byte)), f.peers[s.Sender], f.peers[s.Sender]))
+		key := string(blocks[i].Hash(f.cfg))
+		lib.Class("sibling_" + s.Fate)
+		switch {
+		case len(missing) == 0:
+			wantPost[key] = blocks[i]
+		case s.Fate == "arrive":
+			wantPost[key] = blocks[i]
+			waitPend(expectPending+1, "sibling pending")
+			for _, u := range missing {
+				f.poolAdd(units[i][u].poolTx)
+			}
+			waitPend(expectPending, "sibling rebuilt after its transactions arrived")
+		default: // timeout
+			wantReq[v.getPeerTopic(f.peers[s.Sender])]++
+			expectPending++
+			waitPend(expectPending, "sibling pending")
+			if c.Sequential {
+				c34Age(v)
+				expectPending--
+				waitPend(expectPending, "timed-out sibling removed")
+			}
+		}
+	}
+	if expectPending > 0 {
+		c34Age(v)
+		waitPend(0, "timed-out siblings removed")
+	}
+	v.cancel()
+	select {
+	case <-done:
+	case <-time.After(60 * time.Second):
+		lib.Inconclusive("pendBlockLoop did not stop")
+	}
+	// per block: handed over exactly once and identical / requested from its own sender exactly once
+	got := map[string]int{}
+	for _, bp := range f.postedBlocks() {
+		key := string(bp.Block.Hash(f.cfg))
+		want, ok := wantPost[key]
+		if !ok {
+			fail("a block that was never completed (hash %x) was handed to the blockchain module", bp.Block.Hash(f.cfg))
+		}
+		if d := c34Same(f, want, bp.Block); d != "" {
+			fail("rebuilt block is not identical to the original: %s", d)
+		}
+		got[key]++
+	}
+	for key := range wantPost {
+		if got[key] != 1 {
+			fail("completed light block %x handed to the blockchain module %d times, expected once", key, got[key])
+		}
+	}
+	wantBody := types.Encode(&types.ReqInt{Height: c.Height})
+	reqs := map[string]int{}
+	for _, m := range v.published() {
+		pm, ok := m.msg.(*types.PeerPubSubMsg)
+		if !ok || pm.MsgID != blockReqMsgID || !bytes.Equal(pm.ProtoMsg, wantBody) {
+			fail("unexpected message published on topic %s", m.topic)
+		}
+		reqs[m.topic]++
+	}
+	for topic, n := range wantReq {
+		if reqs[topic] != n {
+			fail("light block at height %d from the peer of topic %s timed out: %d full-block requests sent to that sender, expected %d (requests seen: %v)", c.Height, topic, reqs[topic], n, reqs)
+		}
+	}
+	for topic, n := range reqs {
+		if wantReq[topic] == 0 {
+			fail("%d full-block requests sent to %s, whose light block did not time out", n, topic)
+		}
+	}
+}
+
+// c34Age lets the pending timeout pass for everything that is pending now.
+func c34Age(v *vfProto) {
+	v.ltB.pdBlockLock.Lock()
+	for it := v.ltB.pendBlockList.Front(); it != nil; it = it.Next() {
+		it.Value.(*pendBlock).receiveTimeStamp -= int64(3 * time.Hour)
+	}
+	v.ltB.pdBlockLock.Unlock()
+}
+
+// Non-trivial: at least two different light blocks of the height time out (each must get its own request).
+func TestPropLightBlockSameHeight(t *testing.T) {
+	defer lib.Flush()
+	rapid.Check(t, func(t *rapid.T) {
+		c := c34GenMulti(t)
+		lib.Eval()
+		timeouts := 0
+		for _, s := range c.Siblings {
+			if s.DupOf < 0 && s.Fate == "timeout" {
+				timeouts++
+			}
+		}
+		if c.Sequential {
+			lib.Class("siblings_sequential")
+		} else {
+			lib.Class("siblings_together")
+		}
+		c34RunMulti(t, "TestPropLightBlockSameHeight", c)
+		if timeouts >= 2 {
+			lib.Class("two_or_more_timeouts_at_one_height")
+			lib.NonTrivialCase(c)
+		}
+	})
+}
